@@ -134,3 +134,59 @@ def arg_order(ctx, modules=None):
                                           params[i] if i < len(params) else '?', nm, j + 1))
     ctx.ob('ARG-ORDER', True, None, '%d calls with two or more name-matching arguments' % n,
            key='scanned')
+
+
+_TABLE_KINDS = ('Imu', 'Trajectory', 'Increments', 'TrajectoryError')
+
+
+def col_byname(ctx, modules=None):
+    """COL-BYNAME - the documented tables (Imu, Trajectory, Increments, TrajectoryError) are
+    defined by their column NAMES; a public function that takes one of them as a whole by
+    position (`.values`, `.to_numpy()`, `np.asarray(table)`, `np.hsplit(table, …)`,
+    `.iloc[:, k]`) silently reads the wrong signals from a frame whose columns come in another
+    order (a file read with pandas).  Row-positional access (`.iloc[k]`, `.iloc[a:b]`) carries no
+    such obligation.  On the pinned tree no documented table parameter is used this way."""
+    ctx.rule('COL-BYNAME', 'a parameter documented as Imu / Trajectory / Increments / TrajectoryError '
+             'is never taken column-wise by position')
+    n = 0
+    for f in ctx.repo.public_surface():
+        short = f.module.name.split('.')[-1]
+        if modules and short not in modules:
+            continue
+        try:
+            params = f.doc_kinds().get('params', {})
+        except Exception:
+            params = {}
+        for p, kind in params.items():
+            k = str(kind)
+            if not any(t in k for t in _TABLE_KINDS) or 'Pva' in k.split(',')[0] and \
+                    'Trajectory' not in k:
+                continue
+            n += 1
+            # a re-binding `p = p[COLS]` / `p = p.copy()` keeps the obligation only for the
+            # whole table: stop at the first re-binding that selects columns
+            for node in ast.walk(f.node):
+                bad = None
+                if isinstance(node, ast.Attribute) and isinstance(node.value, ast.Name) and \
+                        node.value.id == p and node.attr in ('values', 'to_numpy'):
+                    bad = norm_text(node)
+                if isinstance(node, ast.Subscript) and isinstance(node.value, ast.Attribute) and \
+                        isinstance(node.value.value, ast.Name) and node.value.value.id == p and \
+                        node.value.attr == 'iloc' and isinstance(node.slice, ast.Tuple) and \
+                        len(node.slice.elts) == 2 and not (
+                            isinstance(node.slice.elts[1], ast.Slice) and
+                            node.slice.elts[1].lower is None and node.slice.elts[1].upper is None):
+                    bad = norm_text(node)
+                if isinstance(node, ast.Call) and norm_text(node.func) in (
+                        'np.asarray', 'np.array', 'np.hsplit', 'np.split', 'np.ascontiguousarray') \
+                        and node.args and isinstance(node.args[0], ast.Name) and \
+                        node.args[0].id == p:
+                    bad = norm_text(node)
+                if bad:
+                    ctx.ob('COL-BYNAME', False, None, '%s of %s by name' % (p, f.qualname), f=f,
+                           node=node, key='%s:%s:%s' % (f.qualname, p, bad[:40]),
+                           why='%s takes its %s parameter `%s` column-wise by position (`%s`): the '
+                               'table is defined by column names, a frame with the same columns in '
+                               'another order is read as the wrong signals' % (f.qualname, k[:30],
+                                                                               p, bad[:60]))
+    ctx.ob('COL-BYNAME', True, None, '%d documented table parameters examined' % n, key='scanned')
